@@ -79,6 +79,7 @@ class Engine(object):
     self.path_checked = False
     self.notes = []
     self.hbits = []
+    self.decided = {}
     self._snap = (self.stats['checks'], self.stats['checks_trivial'], self.stats['checks_unsat'])
 
   def add(self, *cs):
@@ -120,6 +121,19 @@ class Engine(object):
     cond = z3.simplify(cond)
     if z3.is_true(cond): return True
     if z3.is_false(cond): return False
+    # the same condition decided earlier on this path keeps its value (the path condition only grows)
+    key = cond.get_id()
+    hit = self.decided.get(key)
+    if hit is not None:
+      return hit[0]
+    if z3.is_not(cond):
+      hit = self.decided.get(cond.arg(0).get_id())
+      if hit is not None: return not hit[0]
+    b = self._decide(cond)
+    self.decided[key] = (b, cond)
+    return b
+
+  def _decide(self, cond):
     i = len(self.trace)
     if i >= MAX_DECISIONS:
       self.inconclusive.append('decision limit %d reached' % MAX_DECISIONS)
